@@ -127,3 +127,18 @@ def GStateV.step (s : GStateV C D α) (op : GOp C D α) : GStateV C D α := (s.o
 def GStateV.run (s : GStateV C D α) (ops : List (GOp C D α)) : GStateV C D α := ops.foldl GStateV.step s
 end
 end BobEM
+
+namespace BobEM
+section
+variable {α : Type} [Add α] [Mul α] [Sub α] [Div α] [Neg α] [OfNat α 0] [OfNat α 1] [OfNat α 2]
+  [Max α] [LT α] [DecidableLT α] [Transc α] {C D : Nat}
+/-- `GMMMachine(trainer="map", ubm=…, mean_var_update_threshold=t0)`: the machine starts with the scalar
+floor `t0` and copies the prior's parameters through the setters.  `floorsFirst = true` is the order
+of the repaired constructor (floors, means, variances, weights); `false` the pinned commit's order
+(means, variances, floors, weights: defect D23). -/
+def GState.mapInit (floorsFirst : Bool) (t0 : α) (uw : Fin C → α) (um uv ut : Fin C → Fin D → α) : GState C D α :=
+  let s0 : GState C D α := GState.init uw t0
+  if floorsFirst then (((s0.setThresholds ut).setMeans um).setVariances uv).setWeights uw
+  else (((s0.setMeans um).setVariances uv).setThresholds ut).setWeights uw
+end
+end BobEM
